@@ -8,8 +8,8 @@ use serde_json::{Value, json};
 
 pub const TYARGS: [&str; 13] =
     ["int32", "bool", "string", "unit", "(int32,bool)", "[int32;2]", "Vec[int32]", "Ref[int32]", "(int32)->int32", "S", "E2", "Opt[int32]", "Opt[Opt[bool]]"];
-pub const TEMPLATES: [&str; 27] =
-    ["method-own-param", "under-vec", "under-ref", "under-array", "under-tuple", "under-opt", "under-box", "under-vec-ref", "under-ref-vec", "return-only-param", "zero-arg-generic", "swapped-params", "vec-generic", "ref-generic", "array-generic", "id", "pair", "apply", "opt-unwrap", "box-method", "trait-dispatch", "generic-calls-generic", "recursive-list", "two-bounds", "two-instances", "generic-fn-value", "nested-instantiation"];
+pub const TEMPLATES: [&str; 32] =
+    ["permuted-struct-params", "self-recursion-permuted", "uninferable-fn-param", "uninferable-method-param", "uninferable-impl-param", "method-own-param", "under-vec", "under-ref", "under-array", "under-tuple", "under-opt", "under-box", "under-vec-ref", "under-ref-vec", "return-only-param", "zero-arg-generic", "swapped-params", "vec-generic", "ref-generic", "array-generic", "id", "pair", "apply", "opt-unwrap", "box-method", "trait-dispatch", "generic-calls-generic", "recursive-list", "two-bounds", "two-instances", "generic-fn-value", "nested-instantiation"];
 
 fn opt(t: Ty) -> Ty {
     Ty::Named("Opt".into(), vec![t])
@@ -241,6 +241,80 @@ pub fn build(template: &str, a: &str, b: &str) -> Option<Program> {
                 let av = cx.n.fresh("arg");
                 body.push(let_t(av, wrap(tyv.clone()), arg));
                 body.push(show("int32", callg("probe", vec![tyv.clone()], vec![v(av)])));
+            }
+        }
+        "permuted-struct-params" => {
+            // a two-parameter struct read, inside generic code, at an instance whose arguments are the
+            // function's parameters in the other order (and under the same names)
+            cx.items.push(Item::Struct(StructDef { name: "Pr".into(), generics: vec!["A".into(), "B".into()], fields: vec![("first".into(), tp("A")), ("second".into(), tp("B"))], derives: vec![] }));
+            let pr = |x: Ty, y: Ty| Ty::Named("Pr".into(), vec![x, y]);
+            let (p1, p2, p3) = (cx.n.fresh("p"), cx.n.fresh("p"), cx.n.fresh("p"));
+            cx.items.push(gfn("first_of_flipped", &["A", "B"], vec![], vec![(p1, pr(tp("B"), tp("A")))], tp("B"), E::Field(Box::new(v(p1)), "first".into())));
+            cx.items.push(gfn("second_of_flipped", &["A", "B"], vec![], vec![(p2, pr(tp("B"), tp("A")))], tp("A"), E::Field(Box::new(v(p2)), "second".into())));
+            cx.items.push(gfn("second_of_shifted", &["B"], vec![], vec![(p3, pr(tp("B"), Ty::Str))], Ty::Str, E::Field(Box::new(v(p3)), "second".into())));
+            let (q, q2) = (cx.n.fresh("q"), cx.n.fresh("q"));
+            let (va, vb, va2) = (value(&mut cx, a, 1), value(&mut cx, b, 2), value(&mut cx, a, 3));
+            body.push(let_t(q, pr(ta.clone(), tb.clone()), E::StructLit("Pr".into(), vec![("first".into(), va), ("second".into(), vb)], vec![ta.clone(), tb.clone()])));
+            body.push(show(a, callg("first_of_flipped", vec![tb.clone(), ta.clone()], vec![v(q)])));
+            body.push(show(b, callg("second_of_flipped", vec![tb.clone(), ta.clone()], vec![v(q)])));
+            body.push(let_t(q2, pr(ta.clone(), Ty::Str), E::StructLit("Pr".into(), vec![("first".into(), va2), ("second".into(), s("sec"))], vec![ta.clone(), Ty::Str])));
+            body.push(show("string", callg("second_of_shifted", vec![ta.clone()], vec![v(q2)])));
+        }
+        "self-recursion-permuted" => {
+            // a generic function that calls itself with its type parameters in the other order
+            if a == b {
+                return None;
+            }
+            let (xa, xb) = (cx.n.fresh("x"), cx.n.fresh("x"));
+            cx.items.push(fn_def("showA", vec![(xa, ta.clone())], Some(Ty::Str), render(a, v(xa))));
+            cx.items.push(fn_def("showB", vec![(xb, tb.clone())], Some(Ty::Str), render(b, v(xb))));
+            let (pa, pb, pn, sa, sb) = (cx.n.fresh("a"), cx.n.fresh("b"), cx.n.fresh("n"), cx.n.fresh("sa"), cx.n.fresh("sb"));
+            let fa = Ty::Fn(vec![tp("A")], Box::new(Ty::Str));
+            let fb = Ty::Fn(vec![tp("B")], Box::new(Ty::Str));
+            cx.items.push(gfn(
+                "alternate",
+                &["A", "B"],
+                vec![],
+                vec![(pa, tp("A")), (pb, tp("B")), (pn, Ty::i32()), (sa, fa), (sb, fb)],
+                Ty::Str,
+                if_(
+                    bin(BinOp::Lt, v(pn), int(1)),
+                    s("."),
+                    add(add(E::Call(Box::new(v(sa)), vec![v(pa)]), s("|")), callg("alternate", vec![tp("B"), tp("A")], vec![v(pb), v(pa), bin(BinOp::Sub, v(pn), int(1)), v(sb), v(sa)])),
+                ),
+            ));
+            let (va, vb) = (value(&mut cx, a, 1), value(&mut cx, b, 2));
+            body.push(show("string", callg("alternate", vec![ta.clone(), tb.clone()], vec![va, vb, int(3), E::FnRef("showA".into(), vec![]), E::FnRef("showB".into(), vec![])])));
+        }
+        "uninferable-fn-param" | "uninferable-method-param" | "uninferable-impl-param" => {
+            // a type parameter that the signature never mentions (nothing can instantiate it): the
+            // program is rejected, or it means what the model says with T := a
+            let nn = cx.n.fresh("n");
+            let w = cx.n.fresh("w");
+            let count_body = |w: VarId, nn: VarId| block(vec![let_t(w, Ty::Vec(Box::new(tp("T"))), bi("vec_new", vec![]))], Some(add(bi("vec_len", vec![v(w)]), v(nn))));
+            if template == "uninferable-fn-param" {
+                cx.items.push(gfn("count", &["T"], vec![], vec![(nn, Ty::i32())], Ty::i32(), count_body(w, nn)));
+                body.push(show("int32", callg("count", vec![ta.clone()], vec![int(3)])));
+            } else {
+                cx.items.push(Item::Struct(StructDef { name: "Foo".into(), generics: vec![], fields: vec![("k".into(), Ty::i32())], derives: vec![] }));
+                let sf = cx.n.fresh("self");
+                let on_impl = template == "uninferable-impl-param";
+                cx.items.push(Item::Impl(ImplDef {
+                    generics: if on_impl { vec!["T".into()] } else { vec![] },
+                    trait_name: None,
+                    for_ty: Ty::named("Foo"),
+                    methods: vec![FnDef {
+                        name: "count".into(),
+                        generics: if on_impl { vec![] } else { vec!["T".into()] },
+                        bounds: vec![],
+                        params: vec![(sf, Ty::named("Foo")), (nn, Ty::i32())],
+                        ret: Some(Ty::i32()),
+                        body: count_body(w, nn),
+                    }],
+                }));
+                let f = cx.n.fresh("f");
+                body.push(let_(f, E::StructLit("Foo".into(), vec![("k".into(), int(1))], vec![])));
+                body.push(show("int32", E::Inherent("Foo".into(), "count".into(), CallForm::Dot, vec![v(f), int(3)], vec![])));
             }
         }
         "method-own-param" => {
@@ -545,12 +619,12 @@ impl Family for Generics {
         &["C07", "C01", "C02", "C03", "C04"]
     }
     fn rule(&self) -> &'static str {
-        "27 generic templates (a method with a type parameter of its own inside a generic impl, at two instantiations for one receiver type; 8 where the type parameter occurs in the signature only underneath Vec / Ref / array / tuple / Opt / a generic struct / Vec[Ref[.]] / Ref[Vec[.]], each instantiated at two types; a type parameter occurring only in the result type at two instantiations agreeing on the argument-bound parameter, zero-argument generic fixed by the expected type, the same generic at (A,B) and (B,A), Vec/Ref/array element generics, id, pair, apply, Opt unwrap, generic struct with inherent method, trait dispatch through a bound at two impl types, generic calling generic at (T,T), recursive List[T], two bounds, two instances in one program, generic fn as a value, nested instantiation) x 13 type arguments {int32,bool,string,unit,(int32,bool),[int32;2],Vec[int32],Ref[int32],(int32)->int32,S,E2,Opt[int32],Opt[Opt[bool]]} (all ordered pairs for two-parameter templates in thorough, a diagonal band in quick); oracle: output = type-passing reference semantics, emitted Go valid (no type-parameter residue can survive the Go checker); plus the polymorphic-recursion ladder for termination. non-trivial = instantiations at non-scalar types; distinct = distinct source text"
+        "32 generic templates (a two-parameter generic struct whose fields are read inside generic code at an instance with the function's parameters in the other order / shifted; a generic function calling itself with its type parameters swapped; a type parameter of a function / of a method / of an impl block that the signature never mentions (rejected, or valid); a method with a type parameter of its own inside a generic impl, at two instantiations for one receiver type; 8 where the type parameter occurs in the signature only underneath Vec / Ref / array / tuple / Opt / a generic struct / Vec[Ref[.]] / Ref[Vec[.]], each instantiated at two types; a type parameter occurring only in the result type at two instantiations agreeing on the argument-bound parameter, zero-argument generic fixed by the expected type, the same generic at (A,B) and (B,A), Vec/Ref/array element generics, id, pair, apply, Opt unwrap, generic struct with inherent method, trait dispatch through a bound at two impl types, generic calling generic at (T,T), recursive List[T], two bounds, two instances in one program, generic fn as a value, nested instantiation) x 13 type arguments {int32,bool,string,unit,(int32,bool),[int32;2],Vec[int32],Ref[int32],(int32)->int32,S,E2,Opt[int32],Opt[Opt[bool]]} (all ordered pairs for two-parameter templates in thorough, a diagonal band in quick); oracle: output = type-passing reference semantics, emitted Go valid (no type-parameter residue can survive the Go checker); plus the polymorphic-recursion ladder for termination. non-trivial = instantiations at non-scalar types; distinct = distinct source text"
     }
     fn cases(&self, tier: Tier) -> Box<dyn Iterator<Item = Value> + '_> {
         let mut v = Vec::new();
         for t in TEMPLATES {
-            let two = matches!(t, "pair" | "trait-dispatch" | "two-bounds" | "two-instances" | "return-only-param" | "swapped-params" | "method-own-param");
+            let two = matches!(t, "permuted-struct-params" | "self-recursion-permuted" | "pair" | "trait-dispatch" | "two-bounds" | "two-instances" | "return-only-param" | "swapped-params" | "method-own-param");
             for (i, a) in TYARGS.iter().enumerate() {
                 if two {
                     for (j, b) in TYARGS.iter().enumerate() {
@@ -598,7 +672,9 @@ impl Family for Generics {
             return rep;
         };
         let site = format!("template={};a={};b={}", t, a, b);
-        let opts = DiffOpts { props_sem: &["C07", "C01"], props_go: &["C02", "C07"], props_panic: &["C04", "C07"], props_reject: &["C07"], ..DiffOpts::default() };
+        // (a program whose type parameter nothing can instantiate may be rejected)
+        let props_reject: &'static [&'static str] = if t.starts_with("uninferable-") { &[] } else { &["C07"] };
+        let opts = DiffOpts { props_sem: &["C07", "C01"], props_go: &["C02", "C07"], props_panic: &["C04", "C07"], props_reject, ..DiffOpts::default() };
         differential(&prog, &site, "generics", case, ctx, &opts, &mut rep);
         if matches!(a, "int32" | "bool" | "string" | "unit") && matches!(b, "int32" | "bool" | "string" | "unit") {
             rep.nontrivial_key = None;
